@@ -114,6 +114,62 @@ fn am_last_dir(am: &Amortised) -> std::path::PathBuf {
     am.last_dir()
 }
 
+/// Witness files: /verif/known_findings.d/witnesses/C01/<name>.sw with header comments
+/// `// data: <hex script data>` (one run per line), each followed by `// return: <hex>` and
+/// optionally `// logs: <hex>,<hex>`. A witness whose observation differs (or that does not
+/// compile) is a violation with signature `witness:<name>`.
+pub fn run_witnesses(am: &mut Amortised, res: &mut ShardResult) {
+    let dir = std::path::Path::new(VERIF).join("known_findings.d/witnesses/C01");
+    let mut files: Vec<_> = std::fs::read_dir(&dir).map(|rd| rd.filter_map(|e| e.ok()).map(|e| e.path()).filter(|p| p.extension().map(|x| x == "sw").unwrap_or(false)).collect()).unwrap_or_default();
+    files.sort();
+    for f in files {
+        let name = f.file_stem().unwrap().to_string_lossy().to_string();
+        let src = std::fs::read_to_string(&f).unwrap_or_default();
+        let mut runs: Vec<(Vec<u8>, Vec<u8>, Vec<Vec<u8>>)> = vec![];
+        for l in src.lines() {
+            if let Some(h) = l.strip_prefix("// data:") {
+                runs.push((hex::decode(h.trim()).unwrap_or_default(), vec![], vec![]));
+            } else if let Some(h) = l.strip_prefix("// return:") {
+                if let Some(r) = runs.last_mut() {
+                    r.1 = hex::decode(h.trim()).unwrap_or_default();
+                }
+            } else if let Some(h) = l.strip_prefix("// logs:") {
+                if let Some(r) = runs.last_mut() {
+                    r.2 = h.split(',').filter(|x| !x.trim().is_empty()).map(|x| hex::decode(x.trim()).unwrap_or_default()).collect();
+                }
+            }
+        }
+        res.count("witness_programs");
+        let sig = format!("witness:{name}");
+        let replay = json!({"witness": name});
+        'profiles: for profile in Profile::BOTH {
+            res.evaluations += 1;
+            match catch(AssertUnwindSafe(|| am.compile("gencase", &src, profile))) {
+                Ok(Ok(c)) => {
+                    for (data, ret, logs) in &runs {
+                        let obs = run_script(&c.pkg.bytecode.bytes, data);
+                        let ok = matches!(&obs.outcome, Outcome::ReturnData(b) if b == ret) && obs.logs.iter().map(|l| l.1.clone()).collect::<Vec<_>>() == *logs;
+                        if !ok {
+                            res.violation(sig.clone(), format!("[{} witness {name}] expected return {} logs [{}], observed {}", profile.name(), hex::encode(ret), logs.iter().map(hex::encode).collect::<Vec<_>>().join(","), obs.short()), replay.clone());
+                            am.remove(&c);
+                            break 'profiles;
+                        }
+                    }
+                    res.count("witness_runs_as_expected");
+                    am.remove(&c);
+                }
+                _ => {
+                    let dir = am.last_dir();
+                    let msg = first_error_text(am, &dir, profile);
+                    let _ = std::fs::remove_dir_all(&dir);
+                    res.violation(sig.clone(), format!("[{} witness {name}] does not compile: {}", profile.name(), msg.chars().take(160).collect::<String>()), replay.clone());
+                    break 'profiles;
+                }
+            }
+        }
+    }
+}
+
 fn shard(ctx: &ShardCtx) -> ShardResult {
     let mut res = ShardResult::default();
     let mut am = Amortised::new(&ctx.work());
@@ -123,6 +179,11 @@ fn shard(ctx: &ShardCtx) -> ShardResult {
     }
     let mut i = ctx.first_index;
     let clock = ctx.clock();
+    // part (c): fixed witness programs of compiler defects found by this monitor (open findings
+    // whose shape the generator avoids, and repaired ones as regression witnesses)
+    if ctx.first_index == 0 && ctx.shard == 0 {
+        run_witnesses(&mut am, &mut res);
+    }
     // part (b): e2e 'run' tests against the maintainers' expected results (a seed-rotated slice
     // in quick, as many as fit into a third of the budget; all of them in thorough)
     if ctx.first_index == 0 {
@@ -187,6 +248,16 @@ fn shard(ctx: &ShardCtx) -> ShardResult {
 fn replay(case: &Value) -> ShardResult {
     // regenerate the recorded case (needed for the dead-UB arbitration) and run it again
     let mut res = ShardResult::default();
+    if let Some(name) = case.get("witness").and_then(|x| x.as_str()) {
+        let work = work_dir("C01").join("replay");
+        clean_dir(&work);
+        let mut am = Amortised::new(&work);
+        let mut all = ShardResult::default();
+        run_witnesses(&mut am, &mut all);
+        res.evaluations = all.evaluations;
+        res.violations = all.violations.into_iter().filter(|v| v.signature == format!("witness:{name}")).collect();
+        return res;
+    }
     if let Some(name) = case.get("e2e").and_then(|x| x.as_str()) {
         if let Ok(root) = crate::e2e::prepare("C01") {
             if let Some(t) = crate::e2e::list_run_tests(&root).into_iter().find(|t| t.name == name) {
@@ -226,7 +297,7 @@ fn reduce_cmd(args: &[String]) -> i32 {
     let frag = args.get(6).cloned().unwrap_or_default();
     let mut scratch = ShardResult::default();
     let case = case_at(n[0], n[1], n[2], n[3] as usize, &mut scratch);
-    let work = work_dir("reduce");
+    let work = work_dir(&format!("reduce{}", std::process::id()));
     clean_dir(&work);
     let mut am = Amortised::new(&work);
     am.warm().expect("std");
@@ -277,7 +348,7 @@ fn reduce_cmd(args: &[String]) -> i32 {
             }
             "hang" => {
                 // compile in a child process with a time limit (std compile ~3 s + the program)
-                let f = work_dir("reduce").join("hang_candidate.sw");
+                let f = work_dir(&format!("reduce{}", std::process::id())).join("hang_candidate.sw");
                 let _ = std::fs::write(&f, &src);
                 let limit: u64 = frag.parse().unwrap_or(25);
                 let mut child = match std::process::Command::new(std::env::current_exe().unwrap()).arg("compile-one").arg("release").arg(&f).stdout(std::process::Stdio::null()).stderr(std::process::Stdio::null()).spawn() {
